@@ -5,7 +5,9 @@
  *
  *   k:<n>      the n-th allocation request made by libcarquet inside the armed window fails
  *              (n = 0: count only)
- *   !  / ~     arm / disarm the window (requests outside the window are neither counted nor failed)
+ *   !  / ~     arm / disarm the window (requests outside the window are neither counted nor failed);
+ *              reader commands after a window in which a call reported an error are skipped: the
+ *              client does not read back a file whose writer reported a failure
  *   u:<path>   unlink a file left over from an earlier case
  *   E:<p>      client policy after the first error status inside the window:
  *                a = stop using the handles, writer is aborted (C is executed as A)
@@ -73,10 +75,17 @@ void* __wrap_realloc(void* p, size_t n) { return should_fail() ? NULL : __real_r
 char* __wrap_strdup(const char* s) { return should_fail() ? NULL : __real_strdup(s); }
 
 #define LIB(e) ({ g_in_lib = 1; __typeof__(e) _r = (e); g_in_lib = 0; _r; })
+/* carquet_schema_node_name is declared returns_nonnull, so the compiler deletes NULL tests on its
+ * result; after a failed allocation the library may nevertheless return NULL. Launder the pointer. */
+static const char* node_name(const carquet_schema_node_t* nd) {
+    const char* nm = LIB(carquet_schema_node_name(nd));
+    __asm__ volatile("" : "+r"(nm));
+    return nm;
+}
 #define LIBV(e) do { g_in_lib = 1; e; g_in_lib = 0; } while (0)
 
 /* ------------------------------------------------------------------ state (as h_file.c) */
-#define MAXCOLS 64
+#define MAXCOLS 512
 #define MAXKEPT 256
 #define MAXNAME 70000
 
@@ -95,6 +104,7 @@ static carquet_batch_reader_t* g_br = NULL;
 static int g_proj[MAXCOLS]; static int g_nproj = 0;
 static char g_policy = 'a';
 static int g_errseen = 0;                /* an error status was seen inside the window */
+static int g_rb_skip = 0;                /* the window saw an error: the client does not read the file back */
 
 static carquet_byte_array_t* g_last_ba = NULL; static int64_t g_last_ba_n = 0; static uint8_t* g_last_snapshot = NULL;
 
@@ -221,7 +231,7 @@ static void cmd_schema_script(char* t) {
             for (int32_t i = 0; i < ne; i++) {
                 const carquet_schema_node_t* nd = LIB(carquet_schema_get_element(g_schema, i));
                 if (!nd) { fputs(":?", stdout); continue; }
-                const char* nm = LIB(carquet_schema_node_name(nd));
+                const char* nm = node_name(nd);
                 int leaf = LIB(carquet_schema_node_is_leaf(nd));
                 fputc(':', stdout);
                 if (nm) put_name(nm); else fputc('?', stdout);
@@ -366,9 +376,9 @@ static void cmd_meta(void) {
     const carquet_schema_t* s = LIB(carquet_reader_schema(g_reader));
     printf(":%d:%d", s ? LIB(carquet_schema_num_elements(s)) : -1, s ? LIB(carquet_schema_num_columns(s)) : -1);
     if (s) {
-        for (int i = 0; i < s->num_leaves && i < 256; i++) {
+        for (int i = 0; i < s->num_leaves && i < MAXCOLS; i++) {
             const carquet_schema_node_t* nd = LIB(carquet_schema_get_element(s, s->leaf_indices[i]));
-            const char* nm = nd ? LIB(carquet_schema_node_name(nd)) : NULL;
+            const char* nm = nd ? node_name(nd) : NULL;
             fputc(':', stdout);
             if (nm) put_name(nm); else fputc('?', stdout);
             printf(",%d,%d,%d,%d,%d", nd ? (int)LIB(carquet_schema_node_physical_type(nd)) : -1,
@@ -479,7 +489,7 @@ static void cmd_batch_create(char* t) {
         for (int i = 0; i < g_nproj; i++) {
             idx[i] = g_proj[i];
             const carquet_schema_node_t* nd = (g_proj[i] >= 0 && g_proj[i] < s->num_leaves) ? LIB(carquet_schema_get_element(s, s->leaf_indices[g_proj[i]])) : NULL;
-            snprintf(namebuf[i], sizeof namebuf[i], "%s", nd ? LIB(carquet_schema_node_name(nd)) : "no-such-column");
+            { const char* nn = nd ? node_name(nd) : NULL; snprintf(namebuf[i], sizeof namebuf[i], "%s", nn ? nn : "no-such-column"); }
             names[i] = namebuf[i];
         }
         if (byname) { cfg.column_names = names; cfg.num_column_names = g_nproj; }
@@ -562,18 +572,19 @@ int main(void) {
         vh_begin(&c);
         g_case_id = c.tok[0];
         fprintf(stderr, "@@CASE %s\n", g_case_id);
-        g_count = 0; g_fail_at = 0; g_fired = 0; g_armed = 0; g_errseen = 0; g_policy = 'a';
+        g_count = 0; g_fail_at = 0; g_fired = 0; g_armed = 0; g_errseen = 0; g_rb_skip = 0; g_policy = 'a';
         fputs(c.tok[0], stdout);
         for (int i = 1; i < c.n; i++) {
             char* t = c.tok[i];
             int fired_before = g_fired;
             if (g_armed && g_errseen && g_policy != 'n' && !is_release(t[0]) && !(t[0] == 'D' && t[1] == 'f')) { printf(" %c=skip", t[0]); continue; }
+            if (!g_armed && g_rb_skip && (t[0] == 'O' || t[0] == 'M' || t[0] == 'K' || t[0] == 'R')) { printf(" %c=skip", t[0]); continue; }
             switch (t[0]) {
                 case 'k': g_fail_at = atol(field(t, 1)); break;
                 case 'E': g_policy = field(t, 1)[0]; break;
                 case 'u': unlink(field(t, 1)); break;
                 case '!': g_armed = 1; break;
-                case '~': g_armed = 0; g_errseen = 0; break;
+                case '~': g_armed = 0; g_rb_skip = g_errseen; g_errseen = 0; break;
                 case 'D': cmd_schema_script(t); break;
                 case 'S': cmd_schema_col(t); break;
                 case 'W': cmd_writer_create(t); break;
